@@ -336,6 +336,53 @@ impl Item for &Cp {
     }
 }
 
+/// A token ordered by `slot / 2` only: distinguishable elements that compare `Equal` (ties of `min()` / `max()`).
+pub struct TieTok(pub Tok);
+
+impl PartialEq for TieTok {
+    fn eq(&self, o: &TieTok) -> bool {
+        self.0.slot / 2 == o.0.slot / 2
+    }
+}
+impl Eq for TieTok {}
+impl PartialOrd for TieTok {
+    fn partial_cmp(&self, o: &TieTok) -> Option<std::cmp::Ordering> {
+        Some(self.cmp(o))
+    }
+}
+impl Ord for TieTok {
+    fn cmp(&self, o: &TieTok) -> std::cmp::Ordering {
+        (self.0.slot / 2).cmp(&(o.0.slot / 2))
+    }
+}
+
+/// A 64 KiB item: byte-size thresholds (chunk buffers, per-worker vectors) are reached with few elements.
+pub struct Big(pub Tok, pub [u64; 8186]);
+
+impl Big {
+    pub fn new(t: Tok) -> Big {
+        Big(t, [0; 8186])
+    }
+}
+
+impl Item for Big {
+    fn id(&self) -> u64 {
+        self.0.id
+    }
+    fn slot(&self) -> u8 {
+        self.0.slot
+    }
+    fn val(&self) -> u64 {
+        self.0.val
+    }
+    fn red(a: Self, b: Self, kind: u8) -> Self {
+        Big::new(Tok::red(a.0, b.0, kind))
+    }
+    fn prefix(n: usize) -> Vec<Self> {
+        Tok::prefix(n).into_iter().map(Big::new).collect()
+    }
+}
+
 /// map collections yield (key, value) pairs
 impl Item for (u8, Tok) {
     fn id(&self) -> u64 {
